@@ -25,8 +25,11 @@ pub enum Which {
     C08,
     C12,
     C13,
+    C14,
+    C15,
     C17,
     C19,
+    C25,
 }
 
 impl Which {
@@ -41,17 +44,24 @@ impl Which {
             Which::C08 => "C08",
             Which::C12 => "C12",
             Which::C13 => "C13",
+            Which::C14 => "C14",
+            Which::C15 => "C15",
             Which::C17 => "C17",
             Which::C19 => "C19",
+            Which::C25 => "C25",
         }
+    }
+    /// metamorphic pair mode: cases come in pairs (original, variant)
+    fn pair_mode(self) -> bool {
+        matches!(self, Which::C14 | Which::C25)
     }
     /// language (membership) oracle applies
     fn check_member(self) -> bool {
-        matches!(self, Which::C01 | Which::C12 | Which::C13)
+        matches!(self, Which::C01 | Which::C12 | Which::C13 | Which::C15)
     }
     /// value / log oracle applies
     fn check_value(self) -> bool {
-        matches!(self, Which::C02 | Which::C06 | Which::C12 | Which::C13)
+        matches!(self, Which::C02 | Which::C06 | Which::C12 | Which::C13 | Which::C15)
     }
     fn opts(self) -> GenOpts {
         let mut o = GenOpts::full();
@@ -94,6 +104,22 @@ impl Which {
                 o.markers = false;
                 o.fallible_chance = 120;
             }
+            Which::C14 => {
+                o.builtin = 10;
+                o.markers = false;
+                o.inline = false;
+                o.multi_pub = false;
+                o.fallible_chance = 90;
+                o.max_nts = 4;
+                o.helpers = 3;
+            }
+            Which::C15 => {
+                o.markers = false;
+                o.builtin = 30;
+            }
+            Which::C25 => {
+                o.builtin = 40;
+            }
             Which::C19 => {
                 o.clone_only_loc = true;
                 o.builtin = 70;
@@ -114,6 +140,9 @@ impl Which {
             Which::C12 => "one annotated nonterminal (binary / prefix / postfix / ternary / atomic alternatives, 1-4 levels with arbitrary numbers, non-monotone order, inherited levels and associativities, all four assoc kinds) referenced from a wrapper, a repeat and a parenthesised atom, accepted by LALRPOP, x all 6 configs x operator/operand sequences (model sentences, mutations, random, all strings up to 3); oracle: the documented tiered grammar built by the model -> same accept/reject (span DP) and same rendered tree. Non-trivial = input with >= 2 operator tokens; distinct (grammar, config, input)",
             Which::C13 => "G-full grammars heavy in user macros (1-2 parameters, conditions == != ~~ !~), nested macro uses, repetitions of groups and macros, `? * +`; oracle: model expansion by substitution into fresh nonterminals -> same accept/reject and same rendered value (Vec in input order, Option, tuples). Non-trivial = grammar with >= 2 distinct instantiations of one macro or a condition that removed an alternative, input accepted; distinct (grammar, config, start, input)",
             Which::C17 => "grammars with `=>?` actions (plain, inlined, in start productions) x sentences whose tokens carry poison flags (fallible actions return User / a non-User ParseError when they see one) x Err items injected at any stream index x all 6 configs; oracle: model timeline (token i pulled at 2i, node [a,b) reduced at 2b+1): exact error, exact action log up to the failure, exact number of token pulls. Non-trivial = a failing action that is not the last reduction, or a stream error; distinct (grammar, config, start, input, poison, error index)",
+            Which::C14 => "metamorphic pairs (G, G with a random non-empty subset of its non-pub non-recursive nonterminals / macro definitions marked #[inline], incl. nested inlining, several occurrences per alternative, several different inlined nonterminals per alternative, empty and fallible inlined productions), both accepted by LALRPOP, x 6 configs x inputs (sentences, mutations, random, short exhaustive, poisoned tokens that make fallible actions fail); oracle: same Ok rendering / same error (variant, token, span, user error) on every input, and the action log of G-inline equals the model's prediction (inlined actions left to right, inner first, immediately before the host action). Non-trivial = input whose derivation runs >= 1 inlined user action (sub-classes counted: >= 2 different inlined nonterminals in one host reduction, the same one repeated in one host); distinct (pair, config, start, input)",
+            Which::C15 => "G-full grammars decorated with #[cfg(..)] (nested not/all/any, 1-2 attributes per item) on alternatives, extra gated alternatives, gated nonterminals and gated extern conversions x a feature set over {f1, x-y, abc, z9} given with --features; oracle: the model evaluates the predicates and (1) LALRPOP's verdict and (2) the generated .rs after the two header lines are identical to those for the grammar printed with the inactive items deleted, (3) compiled parsers accept the language and return the values of the deleted grammar. Non-trivial = grammar with >= 1 deleted and >= 1 kept gated item; distinct (grammar text, feature set[, config, input])",
+            Which::C25 => "metamorphic pairs (G, G with nonterminals, macro names, macro parameters, bindings, the grammar parameter and its lifetime renamed injectively into an adversarial pool: __0 __sym0 __lookahead __tokens __Symbol __StateMachine __action0 Token alloc core v e ...); oracle: same LALRPOP verdict, same compile result, identical answers (value / error / expected list / token pulls / action log) on every input. Non-trivial = pair with >= 1 new name starting with `__`; distinct (pair, config, start, input)",
             Which::C19 => "G-full grammars (annotated + inferred types: tuples, Vec/Option from repeats and macros, payload tokens, usize / Copy newtype / Clone-only newtype locations, both lexers) x both code generators: every unit LALRPOP accepts must compile (cargo build of the batch, rustc diagnostics attributed to modules through macro expansion chains). Non-trivial = accepted unit whose grammar has an inferred nonterminal type that is a tuple / Vec / Option, or a non-usize location type; distinct (grammar text, config)",
             Which::C08 => "all grammars of the suite x all inputs incl. long repetitions; oracle: no panic, no driver crash, no step-budget overrun (64 (n+2) |P| + 256 steps counted in actions and token pulls), pulls <= n+1. Non-trivial = input rejected, or grammar has a nullable nonterminal",
         }
@@ -138,6 +167,11 @@ struct GramCase {
     macro_multi_inst: bool,
     conds_removed: usize,
     rich_types: bool,
+    feats: BTreeSet<String>,
+    cfg_deleted: usize,
+    cfg_kept: usize,
+    /// pair mode: what the variant changed
+    pair_note: String,
     has_inline_user: bool,
     bind_forms: usize,
     nullable_any: bool,
@@ -159,13 +193,48 @@ fn module_name(gi: usize, algo: Algo, ascent: bool) -> String {
 type InputTuple = (usize, Vec<usize>, Vec<InTok>, Option<String>, Option<usize>);
 
 fn build_case(tape: &[u8], which: Which, n_inputs_scale: usize) -> Result<GramCase, String> {
+    build_cases(tape, which, n_inputs_scale).into_iter().next().unwrap()
+}
+
+/// One case per tape, or an (original, variant) pair in pair mode.
+fn build_cases(tape: &[u8], which: Which, n_inputs_scale: usize) -> Vec<Result<GramCase, String>> {
     let opts = which.opts();
     let mut t = Tape::new(tape);
     let spec = match which {
         Which::C12 => gen::gen_prec(&mut t),
         _ => gen::gen_full(&mut t, &opts),
     };
-    case_from_spec(spec, tape, &mut t, which, n_inputs_scale, None)
+    match which {
+        Which::C14 => {
+            let Some((inl, chosen)) = gen::inline_variant(&spec, &mut t) else {
+                return vec![Err("no nonterminal eligible for inlining".into()), Err("no variant".into())];
+            };
+            let note = format!("inlined: {}", chosen.iter().map(|&i| spec.nts[i].name.clone()).collect::<Vec<_>>().join(" "));
+            let a = case_from_spec(spec, tape, &mut t, which, n_inputs_scale, None, BTreeSet::new(), String::new());
+            let fixed = a.as_ref().ok().map(|c| c.inputs.clone());
+            let b = match fixed {
+                Some(f) => case_from_spec(inl, tape, &mut t, which, n_inputs_scale, Some(f), BTreeSet::new(), note),
+                None => Err("original not modelled".into()),
+            };
+            vec![a, b]
+        }
+        Which::C25 => {
+            let (ren, names) = gen::rename_variant(&spec, &mut t);
+            let note = format!("new names: {}", names.join(" "));
+            let a = case_from_spec(spec, tape, &mut t, which, n_inputs_scale, None, BTreeSet::new(), String::new());
+            let fixed = a.as_ref().ok().map(|c| c.inputs.clone());
+            let b = match fixed {
+                Some(f) => case_from_spec(ren, tape, &mut t, which, n_inputs_scale, Some(f), BTreeSet::new(), note),
+                None => Err("original not modelled".into()),
+            };
+            vec![a, b]
+        }
+        Which::C15 => {
+            let (dec, feats) = gen::cfg_variant(&spec, &mut t);
+            vec![case_from_spec(dec, tape, &mut t, which, n_inputs_scale, None, feats, String::new())]
+        }
+        _ => vec![case_from_spec(spec, tape, &mut t, which, n_inputs_scale, None, BTreeSet::new(), String::new())],
+    }
 }
 
 /// Build the model side of a case. `fixed_inputs`: use exactly these inputs
@@ -177,9 +246,40 @@ fn case_from_spec(
     which: Which,
     n_inputs_scale: usize,
     fixed_inputs: Option<Vec<InputTuple>>,
+    feats: BTreeSet<String>,
+    pair_note: String,
 ) -> Result<GramCase, String> {
     let mut t = t;
-    let el = Elab::run(&spec, &BTreeSet::new()).map_err(|e| format!("{e:?}"))?;
+    let el = match Elab::run(&spec, &feats) {
+        Ok(e) => e,
+        Err(e) if which == Which::C15 => {
+            // an active item refers to a deleted one: LALRPOP must reject both
+            // forms alike; only the text-level comparison applies
+            let _ = e;
+            return Ok(GramCase {
+                tape: tape.to_vec(),
+                term_of_core: vec![],
+                starts: vec![],
+                inputs: vec![],
+                has_inline_user: false,
+                bind_forms: 0,
+                nullable_any: false,
+                recursive: false,
+                n_user_nts: 0,
+                macro_multi_inst: false,
+                conds_removed: 0,
+                rich_types: false,
+                feats,
+                cfg_deleted: 1,
+                cfg_kept: 1,
+                pair_note,
+                spec,
+                core: Core::default(),
+            });
+        }
+        Err(e) => return Err(format!("{e:?}")),
+    };
+    let (cfg_deleted, cfg_kept) = (el.cfg_deleted, el.cfg_kept);
     let macro_multi_inst = el.macro_insts.values().any(|&n| n >= 2);
     let conds_removed = el.conds_removed;
     let rich_types = spec.loc_ty() != crate::gspec::LocTy::Usize
@@ -251,6 +351,16 @@ fn case_from_spec(
                 inputs.push((si, inp, toks, Some(text), None));
             } else {
                 let toks = gen::extern_toks(&spec, &term_of_core, &inp);
+                if which == Which::C14 && !toks.is_empty() && t.chance(90) {
+                    let mut p = toks.clone();
+                    let k = t.below(p.len());
+                    p[k].idx |= crate::model::eval::POISON;
+                    if t.chance(90) {
+                        let k2 = t.below(p.len());
+                        p[k2].idx |= crate::model::eval::POISON;
+                    }
+                    inputs.push((si, inp.clone(), p, None, None));
+                }
                 inputs.push((si, inp, toks, None, None));
             }
         }
@@ -294,6 +404,10 @@ fn case_from_spec(
         macro_multi_inst,
         conds_removed,
         rich_types,
+        feats,
+        cfg_deleted,
+        cfg_kept,
+        pair_note,
         spec,
         core,
     })
@@ -319,6 +433,7 @@ fn query_for(case: &GramCase, module: &str, si: usize, toks: &[InTok], text: &Op
             None
         },
         text: text.clone(),
+        multi: None,
     }
 }
 
@@ -330,6 +445,9 @@ struct ModelOut {
     log: Vec<u32>,
     log_hi: Vec<usize>,
     fail_hi: Option<usize>,
+    distinct_inlined_hosts: usize,
+    repeated_inlined_hosts: usize,
+    inline_actions: usize,
     internal: usize,
     markers: usize,
     bounded: usize,
@@ -352,6 +470,9 @@ fn model(case: &GramCase, start: usize, terms: &[usize], toks: &[InTok]) -> Resu
             log: vec![],
             log_hi: vec![],
             fail_hi: None,
+            distinct_inlined_hosts: 0,
+            repeated_inlined_hosts: 0,
+            inline_actions: 0,
             internal: 0,
             markers: 0,
             bounded: 0,
@@ -376,6 +497,9 @@ fn model(case: &GramCase, start: usize, terms: &[usize], toks: &[InTok]) -> Resu
         log: vec![],
         log_hi: vec![],
         fail_hi: None,
+        distinct_inlined_hosts: 0,
+        repeated_inlined_hosts: 0,
+        inline_actions: 0,
         internal: 0,
         markers: 0,
         bounded: 0,
@@ -393,6 +517,9 @@ fn model(case: &GramCase, start: usize, terms: &[usize], toks: &[InTok]) -> Resu
         out.log = ev.log;
         out.log_hi = ev.log_hi;
         out.fail_hi = ev.fail_hi;
+        out.distinct_inlined_hosts = ev.stats.hosts_with_distinct_inlined;
+        out.repeated_inlined_hosts = ev.stats.hosts_with_repeated_inlined;
+        out.inline_actions = ev.stats.inline_actions;
         out.value = Some(ev.value);
     }
     Ok(out)
@@ -426,12 +553,20 @@ fn evaluate(
         }
     }
     let t0 = std::time::Instant::now();
-    let cases: Vec<Result<GramCase, String>> =
-        crate::core::par_map(tapes, ctx.threads, |_, t| build_case(t, which, scale));
+    let nested: Vec<Vec<Result<GramCase, String>>> =
+        crate::core::par_map(tapes, ctx.threads, |_, t| build_cases(t, which, scale));
+    let per: usize = if which.pair_mode() { 2 } else { 1 };
+    let cases: Vec<Result<GramCase, String>> = nested.into_iter().flatten().collect();
     if dbg {
         eprintln!("[{:?}] built {} cases", t0.elapsed(), cases.len());
     }
-    evaluate_cases(ctx, which, cases, name, ck, focus)
+    let flat = evaluate_cases(ctx, which, cases, name, ck, focus);
+    // fold pairs back to one entry per tape
+    let mut out: Vec<Vec<Fail>> = vec![vec![]; tapes.len()];
+    for (i, f) in flat.into_iter().enumerate() {
+        out[i / per].extend(f);
+    }
+    out
 }
 
 fn evaluate_cases(
@@ -470,7 +605,20 @@ fn evaluate_cases(
                     Lexer::Builtin => None,
                     Lexer::Extern { .. } => Some(c.spec.loc_ty_name().to_string()),
                 },
+                flags: if c.feats.is_empty() { vec![] } else { vec!["--features".to_string(), c.feats.iter().cloned().collect::<Vec<_>>().join(",")] },
+                compile: true,
+            });
+        }
+        if which == Which::C15 {
+            // the same grammar with the inactive items deleted by the model
+            units.push(Unit {
+                module: format!("g{gi}_del"),
+                text: c.spec.print_mode(PrintCfg { lalr: false, ascent: false }, &crate::gspec::CfgMode::Deleted(c.feats.clone())),
+                algo: Algo::Lane,
+                starts: vec![],
+                loc_ty: None,
                 flags: vec![],
+                compile: false,
             });
         }
     }
@@ -614,6 +762,8 @@ fn evaluate_cases(
                 "tape_hex": tape::hex(&c.tape),
                 "spec": serde_json::to_value(&c.spec).unwrap_or(Value::Null),
                 "input": serde_json::to_value(&c.inputs[*ii]).unwrap_or(Value::Null),
+                "features": c.feats.iter().cloned().collect::<Vec<_>>(),
+                "variant_note": c.pair_note,
                 "grammar": c.spec.print(PrintCfg { lalr: algo.needs_lalr_attr(), ascent }),
                 "algo": algo.name(),
                 "ascent": ascent,
@@ -635,7 +785,8 @@ fn evaluate_cases(
             }
             let key = (c.spec.print(PrintCfg { lalr: false, ascent: false }), vi, *si, terms.clone());
             match which {
-                Which::C01 | Which::C02 | Which::C06 | Which::C12 | Which::C13 => {
+                Which::C14 | Which::C25 => { /* pair oracle below */ }
+                Which::C01 | Which::C02 | Which::C06 | Which::C12 | Which::C13 | Which::C15 => {
                   if which.check_member() {
                     let got = match r {
                         Resp::Ok { .. } => Some(true),
@@ -694,6 +845,10 @@ fn evaluate_cases(
                                 let ops = terms.iter().filter(|t| !matches!(c.spec.terms[c.term_of_core[**t]].kind, 0 | 5 | 6)).count();
                                 if count && ops >= 2 {
                                     ck.nontrivial(&key);
+                                }
+                            } else if which == Which::C15 {
+                                if count && c.cfg_deleted >= 1 && c.cfg_kept >= 1 {
+                                    ck.nontrivial(&(key.clone(), c.feats.clone()));
                                 }
                             } else if which == Which::C13 {
                                 if count && (c.macro_multi_inst || c.conds_removed > 0) {
@@ -1040,6 +1195,223 @@ fn evaluate_cases(
             }
         }
     }
+    if which == Which::C15 {
+        for (gi, c) in cases.iter().enumerate() {
+            let Ok(c) = c else { continue };
+            let m_cfg = module_name(gi, Algo::Lane, false);
+            let m_del = format!("g{gi}_del");
+            let (Some(&ia), Some(&ib)) = (unit_idx.get(&m_cfg), unit_idx.get(&m_del)) else { continue };
+            if count {
+                ck.eval();
+                if c.cfg_deleted >= 1 && c.cfg_kept >= 1 {
+                    ck.nontrivial(&(batch.units[ia].text.clone(), c.feats.clone()));
+                }
+                ck.class(if c.starts.is_empty() { "c15_text_only(active item refers to a deleted one)" } else { "c15_modelled" });
+            }
+            let (pa, pb) = (batch.gen[ia].panicked(), batch.gen[ib].panicked());
+            if pa || pb {
+                if count {
+                    ck.skip("lalrpop panicked on one form (C18 domain)");
+                }
+                continue;
+            }
+            let strip = |t: String| -> String { t.lines().skip(2).collect::<Vec<_>>().join("\n") };
+            let fail = if batch.accepted[ia] != batch.accepted[ib] {
+                Some((
+                    "verdict".to_string(),
+                    format!(
+                        "with features {:?} LALRPOP {} the grammar carrying #[cfg] attributes but {} the same grammar with the inactive items deleted",
+                        c.feats,
+                        if batch.accepted[ia] { "accepts" } else { "rejects" },
+                        if batch.accepted[ib] { "accepts" } else { "rejects" }
+                    ),
+                ))
+            } else if batch.accepted[ia] {
+                let (ta, tb) = (batch.generated(&m_cfg).map(strip), batch.generated(&m_del).map(strip));
+                if ta != tb {
+                    Some(("generated-code-differs".to_string(), format!("with features {:?} the generated parser differs from the one generated for the grammar with the inactive items deleted", c.feats)))
+                } else {
+                    None
+                }
+            } else {
+                None
+            };
+            if let Some((kind, what)) = fail {
+                fails[gi].push(Fail {
+                    sig: format!("C15/{kind}"),
+                    what,
+                    replay: json!({
+                        "which": which.id(),
+                        "tape_hex": tape::hex(&c.tape),
+                        "spec": serde_json::to_value(&c.spec).unwrap_or(Value::Null),
+                        "features": c.feats.iter().cloned().collect::<Vec<_>>(),
+                        "grammar": batch.units[ia].text,
+                        "grammar_with_inactive_items_deleted": batch.units[ib].text,
+                        "lalrpop_cfg": batch.gen[ia].stdout.lines().take(6).collect::<Vec<_>>(),
+                        "lalrpop_deleted": batch.gen[ib].stdout.lines().take(6).collect::<Vec<_>>(),
+                        "algo": "lane", "ascent": false,
+                    }),
+                });
+            }
+        }
+    }
+    if which.pair_mode() {
+        for k in 0..cases.len() / 2 {
+            let (ga, gb) = (2 * k, 2 * k + 1);
+            let (Ok(ca), Ok(cb)) = (&cases[ga], &cases[gb]) else {
+                if count {
+                    ck.skip("pair not modelled / no variant possible");
+                }
+                continue;
+            };
+            for (vi, &(algo, ascent)) in vars.iter().enumerate() {
+                let (ma, mb) = (module_name(ga, algo, ascent), module_name(gb, algo, ascent));
+                let (Some(&ia), Some(&ib)) = (unit_idx.get(&ma), unit_idx.get(&mb)) else { continue };
+                let cfgn = format!("{}/{}", if ascent { "ascent" } else { "table" }, algo.name());
+                let base_replay = |extra: Value| -> Value {
+                    json!({
+                        "which": which.id(),
+                        "tape_hex": tape::hex(&ca.tape),
+                        "spec": serde_json::to_value(&ca.spec).unwrap_or(Value::Null),
+                        "variant_spec": serde_json::to_value(&cb.spec).unwrap_or(Value::Null),
+                        "grammar": batch.units[ia].text,
+                        "variant_grammar": batch.units[ib].text,
+                        "variant_note": cb.pair_note,
+                        "algo": algo.name(), "ascent": ascent,
+                        "detail": extra,
+                    })
+                };
+                if batch.gen[ia].panicked() || batch.gen[ib].panicked() {
+                    if count {
+                        ck.skip("lalrpop panicked on one form (C18 domain)");
+                    }
+                    continue;
+                }
+                if which == Which::C25 {
+                    if count {
+                        ck.eval();
+                    }
+                    if batch.accepted[ia] != batch.accepted[ib] {
+                        let msg = |i: usize| batch.gen[i].stdout.lines().find(|l| l.contains("error") || l.contains("detected")).unwrap_or("").to_string();
+                        let why = if batch.accepted[ia] { msg(ib) } else { msg(ia) };
+                        let why_n = crate::run::normalise_msg(why.splitn(4, ':').last().unwrap_or(&why));
+                        fails[ga].push(Fail {
+                            sig: format!("C25/verdict-changes-with-renaming/{}", why_n),
+                            what: format!("LALRPOP {} the grammar but {} its renaming ({}): {}", if batch.accepted[ia] { "accepts" } else { "rejects" }, if batch.accepted[ib] { "accepts" } else { "rejects" }, cb.pair_note, why),
+                            replay: base_replay(json!({"lalrpop_original": batch.gen[ia].stdout.lines().take(8).collect::<Vec<_>>(), "lalrpop_renamed": batch.gen[ib].stdout.lines().take(8).collect::<Vec<_>>()})),
+                        });
+                        continue;
+                    }
+                    if batch.accepted[ia] && batch.compiled(&ma) != batch.compiled(&mb) {
+                        let err = batch.compile_errors.get(&ma).or(batch.compile_errors.get(&mb)).cloned().unwrap_or_default();
+                        let first = err.lines().next().unwrap_or("");
+                        let msg = first.splitn(2, ": ").nth(1).unwrap_or(first);
+                        fails[ga].push(Fail {
+                            sig: format!("C25/compile-result-changes-with-renaming/{}", crate::run::normalise_msg(msg)),
+                            what: format!("only one of the grammar and its renaming ({}) compiles: {}", cb.pair_note, err.lines().take(3).collect::<Vec<_>>().join(" | ")),
+                            replay: base_replay(json!({"rustc": err})),
+                        });
+                        continue;
+                    }
+                }
+                if !(batch.compiled(&ma) && batch.compiled(&mb)) {
+                    if count {
+                        ck.skip("one form rejected by LALRPOP or not compiled (precondition: both conflict-free)");
+                    }
+                    continue;
+                }
+                for ii in 0..ca.inputs.len() {
+                    let (Some(ra), Some(rb)) = (
+                        by_input.get(&(ga, ii)).and_then(|v| v.iter().find(|(x, _)| *x == vi)).map(|x| x.1),
+                        by_input.get(&(gb, ii)).and_then(|v| v.iter().find(|(x, _)| *x == vi)).map(|x| x.1),
+                    ) else { continue };
+                    if count {
+                        ck.eval();
+                    }
+                    let (si, terms, toks, text, _) = &ca.inputs[ii];
+                    let in_json = json!({"start": ca.starts[*si].1, "input": terms.iter().map(|t| ca.core.term_names[*t].clone()).collect::<Vec<_>>(), "text": text,
+                        "poisoned": toks.iter().filter(|t| t.idx & crate::model::eval::POISON != 0).map(|t| t.idx & crate::model::eval::IDX).collect::<Vec<_>>(),
+                        "input_tuple": serde_json::to_value(&ca.inputs[ii]).unwrap_or(Value::Null)});
+                    let key = (batch.units[ia].text.clone(), batch.units[ib].text.clone(), vi, ii);
+                    if which == Which::C25 {
+                        if count && cb.pair_note.contains("__") {
+                            ck.nontrivial(&key);
+                        }
+                        if ra != rb {
+                            fails[ga].push(Fail {
+                                sig: format!("C25/parse-result-changes-with-renaming/{cfgn}"),
+                                what: format!("original returned {ra:?}, renamed ({}) returned {rb:?}", cb.pair_note),
+                                replay: base_replay(json!({"case": in_json, "original": format!("{ra:?}"), "renamed": format!("{rb:?}")})),
+                            });
+                        }
+                        continue;
+                    }
+                    // C14
+                    let proj = |r: &Resp| -> Option<(bool, String)> {
+                        match r {
+                            Resp::Ok { val, .. } => Some((true, format!("Ok({val})"))),
+                            Resp::Err { variant, a, b, c, .. } => Some((false, format!("Err({variant},{a},{b},{c})"))),
+                            _ => None,
+                        }
+                    };
+                    let (Some((oka, pa)), Some((_okb, pb))) = (proj(ra), proj(rb)) else {
+                        if count {
+                            ck.skip("a parser panicked / hung (C08 domain)");
+                        }
+                        continue;
+                    };
+                    let mb_model = match models.get(&(gb, ii)) {
+                        Some(Ok(m)) => m,
+                        _ => continue,
+                    };
+                    if count && mb_model.inline_actions >= 1 {
+                        ck.nontrivial(&key);
+                        if mb_model.distinct_inlined_hosts > 0 {
+                            ck.class("c14_inputs_with_distinct_inlined_nonterminals_in_one_host");
+                        }
+                        if mb_model.repeated_inlined_hosts > 0 {
+                            ck.class("c14_inputs_with_repeated_inlined_nonterminal_in_one_host");
+                        }
+                    }
+                    if pa != pb {
+                        // F10: with two different inlined nonterminals in one host the later one's error wins
+                        let both_user = pa.starts_with("Err(User") && pb.starts_with("Err(User");
+                        let sig = if both_user && mb_model.distinct_inlined_hosts > 0 {
+                            "C14/order/distinct-inlined-nonterminals".to_string()
+                        } else {
+                            format!("C14/result-changes-with-inline/{cfgn}")
+                        };
+                        fails[ga].push(Fail {
+                            sig,
+                            what: format!("without #[inline] the parser returned {pa}, with ({}) it returned {pb}", cb.pair_note),
+                            replay: base_replay(json!({"case": in_json, "original": pa, "inlined": pb})),
+                        });
+                        continue;
+                    }
+                    // log of the inlined form vs the model's prediction
+                    if let (Resp::Ok { log, .. } | Resp::Err { log, .. }, true) = (rb, mb_model.member && !mb_model.ambiguous) {
+                        // compare only when the model's evaluation reached the same outcome class
+                        let model_ok = matches!(mb_model.value, Some(Ok(_)));
+                        if model_ok == oka && *log != mb_model.log {
+                            let (mut x, mut y) = (log.clone(), mb_model.log.clone());
+                            x.sort();
+                            y.sort();
+                            let sig = if x == y && mb_model.distinct_inlined_hosts > 0 {
+                                "C14/order/distinct-inlined-nonterminals".to_string()
+                            } else {
+                                format!("C14/inlined-action-order/{cfgn}")
+                            };
+                            fails[ga].push(Fail {
+                                sig,
+                                what: format!("with ({}) the actions ran in order {:?}; inlined actions left to right just before their host give {:?}", cb.pair_note, log, mb_model.log),
+                                replay: base_replay(json!({"case": in_json, "observed_log": log, "model_log": mb_model.log})),
+                            });
+                        }
+                    }
+                }
+            }
+        }
+    }
     if count {
         // samples + classes
         for (gi, c) in cases.iter().enumerate() {
@@ -1155,12 +1527,34 @@ fn replay_case(ctx: &Ctx, which: Which, ck: &mut Checker, v: &Value) {
     let mut t = Tape::new(&tape);
     // C19 has no input: let the generator make a few (they are not used by its oracle)
     let fixed = if inputs.is_some() { inputs } else { Some(vec![]) };
-    let case = case_from_spec(spec, &tape, &mut t, which, 1, fixed);
+    let feats: BTreeSet<String> = serde_json::from_value(v["features"].clone()).unwrap_or_default();
+    let fixed = if which.pair_mode() {
+        match serde_json::from_value::<InputTuple>(v["detail"]["case"]["input_tuple"].clone()) {
+            Ok(i) => Some(vec![i]),
+            Err(_) => Some(vec![]),
+        }
+    } else {
+        fixed
+    };
+    let case = case_from_spec(spec, &tape, &mut t, which, 1, fixed.clone(), feats, String::new());
     if let Err(e) = &case {
         ck.infra(format!("pinned replay: {e}"));
         return;
     }
-    let fails = evaluate_cases(ctx, which, vec![case], "replay", None, Some(focus));
+    let mut cases = vec![case];
+    if which.pair_mode() {
+        let vspec: GSpec = match serde_json::from_value(v["variant_spec"].clone()) {
+            Ok(s) => s,
+            Err(e) => {
+                ck.infra(format!("pinned replay: cannot decode the stored variant spec: {e}"));
+                return;
+            }
+        };
+        let note = v["variant_note"].as_str().unwrap_or("").to_string();
+        cases.push(case_from_spec(vspec, &tape, &mut t, which, 1, fixed, BTreeSet::new(), note));
+    }
+    let fails: Vec<Fail> = evaluate_cases(ctx, which, cases, "replay", None, Some(focus)).into_iter().flatten().collect();
+    let fails = vec![fails];
     ck.eval();
     let want = v["signature"].as_str().unwrap_or("");
     for f in &fails[0] {
@@ -1235,6 +1629,170 @@ pub fn run(ctx: Ctx, replay: Option<PathBuf>, which: Which) -> i32 {
             ck.violation(&sig, &f.what, rp);
         } else {
             ck.violation(&sig, &f.what, f.replay.clone());
+        }
+    }
+    ck.finish()
+}
+
+
+// ------------------------------------------------------------------ C27
+
+const C27_RULE: &str = "accepted grammars (built-in lexer weighted up, extern too) x {table, ascent}: one parser value per pub symbol, used for N sequential parses in random order and then by T in {2,4,8,16} threads at once (barrier start, random per-thread input sequences) over a multiset of accepted and rejected inputs; oracle: every answer (value / error / expected list / action log / token pulls) equals the answer of a fresh parser on that input alone; plus a compile-time Send + Sync assertion on every parser type. Non-trivial = a concurrent schedule with >= 2 threads over >= 2 distinct inputs of which at least one is rejected; distinct (grammar, config, start, schedule)";
+
+pub fn run_c27(ctx: Ctx, replay: Option<PathBuf>) -> i32 {
+    let mut ck = Checker::new(ctx.clone(), "exploration", C27_RULE);
+    ck.assume("the harness does not own the scheduler: thread interleavings are sampled by stress (barrier start, many rounds), not enumerated");
+    ck.assume("rustc and the batch runtime rt.rs behave as written");
+    let replay_v = match &replay {
+        Some(p) => match super::load_replay(p) {
+            Ok(v) => Some(v),
+            Err(c) => return c,
+        },
+        None => None,
+    };
+    if replay_v.is_some() {
+        ck.strict = true;
+    }
+    let which = Which::C01;
+    let mut opts_builtin = which.opts();
+    opts_builtin.builtin = 150;
+    let n = ctx.tier.pick(40usize, 600usize);
+    let n = std::env::var("VERIF_N").ok().and_then(|s| s.parse().ok()).unwrap_or(n);
+    let tapes: Vec<Vec<u8>> = match &replay_v {
+        Some(v) => vec![tape::unhex(v["tape_hex"].as_str().unwrap_or(""))],
+        None => tape::sample_tapes(ctx.seed, n, 24, 220),
+    };
+    let rounds = ctx.tier.pick(24usize, 200usize);
+    // cases (generator of C01 with more built-in lexers)
+    let cases: Vec<Result<GramCase, String>> = crate::core::par_map(&tapes, ctx.threads, |_, tp| {
+        let mut t = Tape::new(tp);
+        let spec = gen::gen_full(&mut t, &opts_builtin);
+        case_from_spec(spec, tp, &mut t, which, 1, None, BTreeSet::new(), String::new())
+    });
+    let vars = [(Algo::Lane, false), (Algo::Lane, true)];
+    for (chunk_i, chunk) in (0..cases.len()).collect::<Vec<_>>().chunks(240).enumerate() {
+        let mut units = vec![];
+        for &gi in chunk {
+            let Ok(c) = &cases[gi] else { continue };
+            for &(algo, ascent) in &vars {
+                units.push(Unit {
+                    module: module_name(gi, algo, ascent),
+                    text: c.spec.print(PrintCfg { lalr: false, ascent }),
+                    algo,
+                    starts: c.starts.iter().map(|s| s.1.clone()).collect(),
+                    loc_ty: match c.spec.lexer {
+                        Lexer::Builtin => None,
+                        Lexer::Extern { .. } => Some(c.spec.loc_ty_name().to_string()),
+                    },
+                    flags: vec![],
+                    compile: true,
+                });
+            }
+        }
+        let batch = Batch::build(&ctx, &format!("batch{chunk_i}"), units);
+        if let Some(e) = &batch.infra_error {
+            ck.infra(format!("batch: {e}"));
+            break;
+        }
+        for (m, e) in &batch.compile_errors {
+            // includes a failing Send + Sync assertion
+            let first = e.lines().next().unwrap_or("");
+            let msg = first.splitn(2, ": ").nth(1).unwrap_or(first);
+            if msg.contains("Send") || msg.contains("Sync") || msg.contains("cannot be shared") || msg.contains("cannot be sent") {
+                ck.violation(
+                    &format!("C27/not-send-sync/{}", crate::run::normalise_msg(msg)),
+                    &format!("parser type of {m} is not Send + Sync: {msg}"),
+                    json!({"module": m, "rustc": e, "grammar": batch.units.iter().find(|u| &u.module == m).map(|u| u.text.clone())}),
+                );
+            } else {
+                ck.skip("generated module failed to compile for another reason (C19 domain)");
+            }
+        }
+        let mut queries = vec![];
+        let mut meta: Vec<(usize, usize, usize, usize, Vec<Vec<usize>>, bool)> = vec![];
+        for &gi in chunk {
+            let Ok(c) = &cases[gi] else { continue };
+            // schedules are drawn from a dedicated long proptest tape (one per grammar)
+            let sched_tape = tape::sample_tapes(ctx.seed ^ (0x27_0000 + gi as u64), 1, 16 * rounds * 4 * 4, 16 * rounds * 4 * 4).pop().unwrap_or_default();
+            let mut t = Tape::new(&sched_tape);
+            for (vi, &(algo, ascent)) in vars.iter().enumerate() {
+                let m = module_name(gi, algo, ascent);
+                if !batch.compiled(&m) {
+                    continue;
+                }
+                for si in 0..c.starts.len() {
+                    let ins: Vec<usize> = (0..c.inputs.len()).filter(|&i| c.inputs[i].0 == si).take(24).collect();
+                    if ins.len() < 2 {
+                        continue;
+                    }
+                    let subs: Vec<Query> = ins
+                        .iter()
+                        .map(|&i| {
+                            let (si, terms, toks, text, e) = &c.inputs[i];
+                            query_for(c, &m, *si, toks, text, terms.len(), *e)
+                        })
+                        .collect();
+                    for &threads in &[2usize, 4, 8, 16] {
+                        let schedule: Vec<Vec<usize>> =
+                            (0..threads).map(|_| (0..rounds).map(|_| t.below(subs.len())).collect()).collect();
+                        let distinct: BTreeSet<usize> = schedule.iter().flatten().copied().collect();
+                        let nontrivial = distinct.len() >= 2;
+                        queries.push(Query {
+                            module: m.clone(),
+                            start: c.starts[si].1.clone(),
+                            budget: budget_for(&c.core, 16),
+                            toks: None,
+                            text: None,
+                            multi: Some((threads, subs.clone(), schedule.clone())),
+                        });
+                        meta.push((gi, vi, si, threads, schedule, nontrivial));
+                    }
+                }
+            }
+        }
+        let resps = batch.query(&ctx, &queries);
+        batch.cleanup();
+        for (k, r) in resps.iter().enumerate() {
+            let (gi, vi, si, threads, schedule, nontrivial) = &meta[k];
+            let c = cases[*gi].as_ref().unwrap();
+            ck.eval();
+            ck.class(&format!("schedules_with_{threads}_threads"));
+            ck.class(match c.spec.lexer {
+                Lexer::Builtin => "schedules_builtin_lexer",
+                Lexer::Extern { .. } => "schedules_extern_lexer",
+            });
+            if *nontrivial {
+                ck.nontrivial(&(c.spec.print(PrintCfg { lalr: false, ascent: vars[*vi].1 }), *si, schedule.clone()));
+            }
+            match r {
+                Resp::MultiOk(nc) => {
+                    ck.class_n("answers_compared_with_fresh_parser", *nc);
+                    if ck.want_sample() && k % 37 == 0 {
+                        ck.sample(json!({"grammar": c.spec.print(PrintCfg{lalr:false, ascent: vars[*vi].1}), "start": c.starts[*si].1, "threads": threads,
+                            "schedule_head": schedule.iter().map(|s| s.iter().take(6).copied().collect::<Vec<_>>()).collect::<Vec<_>>(), "answers_compared": nc}));
+                    }
+                }
+                Resp::MultiMismatch { phase, thread, step, input, expected, got } => {
+                    ck.violation(
+                        &format!("C27/answer-differs-from-fresh-parser/{}/{}", phase, if vars[*vi].1 { "ascent" } else { "table" }),
+                        &format!("{phase} use of one parser value: thread {thread} step {step} input #{input} returned `{got}`, a fresh parser returns `{expected}`"),
+                        json!({"tape_hex": tape::hex(&c.tape), "grammar": c.spec.print(PrintCfg{lalr:false, ascent: vars[*vi].1}), "start": c.starts[*si].1,
+                               "threads": threads, "schedule": schedule, "expected": expected, "got": got}),
+                    );
+                }
+                Resp::Hang => {
+                    ck.inconclusive += 1;
+                    ck.infra("driver watchdog expired during a concurrent schedule");
+                }
+                Resp::Crash(m) | Resp::Panic { msg: m } => {
+                    ck.violation(
+                        &format!("C27/crash/{}", crate::run::normalise_msg(m)),
+                        &format!("driver died during shared use of one parser value: {m}"),
+                        json!({"tape_hex": tape::hex(&c.tape), "grammar": c.spec.print(PrintCfg{lalr:false, ascent: vars[*vi].1}), "threads": threads}),
+                    );
+                }
+                _ => ck.skip("no answer"),
+            }
         }
     }
     ck.finish()
